@@ -1,1 +1,2 @@
 pub mod table;
+pub mod query;
